@@ -225,6 +225,9 @@ def entry_points(prog, unit, iface_names, only=None):
     return out
 
 
+_END_DONE = set()
+
+
 def check_unlink_effects(chk, prog, unit, doubly, only=None):
     """L2: an interface function that takes a node out of the chain (it, or a helper it calls, deletes a node) updates - in the
     function or its helpers - the predecessor's next (or the link that led to the node), the successor's prev, head and tail;
@@ -253,6 +256,42 @@ def check_unlink_effects(chk, prog, unit, doubly, only=None):
                        "pred-next": "the chain still reaches the deleted node", "succ-prev": "walking backwards reaches the deleted node",
                        "head": "removing the first element leaves head dangling", "tail": "removing the last element leaves tail dangling"}[kind]),
                    proof="a store to the %s exists in %s" % (kind, ", ".join(sorted({g.name for g, _ in stores[kind]}))))
+        # the new end of the list lies inside the list: a tail (head) store of a node whose position is provably past the last
+        # (before the first) node - `tail = removed->next` for the removed last node - leaves the end pointer NULL or dangling
+        # while other nodes remain (GHOSTPOS; reported only when the state entails it)
+        from .ghostpos import GhostPos
+        from .lin import Lin, entails as _entails
+        mut_, pure_ = unit_effects(prog, unit)
+        for kind in ("tail", "head"):
+            for g, x in stores[kind]:
+                if any(re.search(r"_item_new$", X.callee_name(c_) or "") for c_ in X.calls_in(g.body)):
+                    continue
+                key_ = (g.name, x["i"])
+                if key_ in _END_DONE:
+                    continue
+                _END_DONE.add(key_)
+                eng = GhostPos(g, prog, mutators=mut_, pure=pure_)
+                if eng.cfg is None:
+                    continue
+                eng.run()
+                verdict = []
+
+                def v_end(st, n_, blk, x=x, eng=eng, kind=kind, verdict=verdict):
+                    if n_ is x:
+                        p_ = eng.pos(x["ch"][1])
+                        if p_ is None:
+                            return
+                        L_ = Lin.sym("len")
+                        out_ = _entails(list(st), p_ - L_) if kind == "tail" else _entails(list(st), -p_ - 1)
+                        verdict.append(out_)
+                eng.visit(v_end)
+                if verdict:
+                    chk.ob("L2", g.name, "new-%s-inside-list:%s" % (kind, canon(g, x)[:30]), not any(verdict), loc=g.loc(x),
+                           detail="%s stores %s, a node position %s of the list, as the new %s: removing the %s element leaves %s NULL "
+                                  "(or dangling) while other nodes remain" % (g.name, X.render(x["ch"][1])[:30],
+                                                                              "past the end" if kind == "tail" else "before the start", kind,
+                                                                              "last" if kind == "tail" else "first", kind),
+                           proof="the stored node's ghost position is not past the %s" % ("end" if kind == "tail" else "start"))
         if doubly and stores["head"] and stores["tail"]:
             bad = None
             for gh, hs in stores["head"]:
@@ -396,6 +435,32 @@ def check_insert_effects(chk, prog, unit, doubly, only=None):
                    detail="%s returns success on a path on which the node it created is neither stored as some node's prev nor as the tail: "
                           "backward walks and the tail pointer miss the new last/only element" % f.name,
                    proof="on every success path the new node becomes someone's prev / the tail")
+        # L3: the node that is linked in carries the caller's element: a set_data(node, obj) / node->data = obj of the element
+        # parameter dominates every success return (in every build configuration: a store written inside an assertion's
+        # argument is gone when assertions are compiled out)
+        objp = [p_ for p_ in f.params[1:] if p_.get("tp") and re.search(r"spif_obj_t$|obj_t_struct \*$", (p_.get("t", "") + " " + p_.get("tc", "")).strip())]
+        if objp and results:
+            od = objp[0]["d"]
+            cfg_ = nullness.prepared_cfg(f, NORETURN)
+            gives = []
+            for x in walk(f.body):
+                if x.get("k") == "call" and re.search(r"_item_set_data$", X.callee_name(x) or "") and len(x["ch"]) >= 3:
+                    a0, a1 = X.strip(x["ch"][1]), X.strip(x["ch"][2])
+                    if a0.get("d") in news and a1.get("d") == od:
+                        gives.append(x)
+                if x.get("k") == "assign" and x.get("op") == "=":
+                    l_, r_ = X.strip(x["ch"][0]), X.strip(x["ch"][1])
+                    if l_.get("k") == "member" and l_.get("n") == "data" and X.strip(l_["ch"][0]).get("d") in news and r_ is not None and r_.get("d") == od:
+                        gives.append(x)
+            # helpers that are handed both the node and the element do the giving themselves
+            handed = [c_ for c_ in X.calls_in(f.body) if u.functions.get(X.callee_name(c_) or "") is not None and
+                      any(X.strip(a_).get("d") == od for a_ in c_["ch"][1:])]
+            succ = [r for r in results if r[2]]
+            bad = [r for r in succ if not any(cfg_.node_dominates(g_["i"], r[0]["i"]) for g_ in gives + handed)]
+            chk.ob("L3", f.name, "new-node-carries-element", not bad, loc=f.loc(bad[0][0]) if bad else loc,
+                   detail="%s links a new node in and returns success on a path on which the caller's element was never put into that node: "
+                          "the list grows by an empty placeholder and the element is lost" % f.name,
+                   proof="set_data(node, element) dominates every success return")
         chk.ob("L5", f.name, "len-incremented", not badl, loc=f.loc(badl[0][0]) if badl else loc,
                detail="%s links a new node in without incrementing len on some path: count and chain length disagree" % f.name,
                proof="len + 1 on every success path that created a node")
@@ -805,6 +870,20 @@ def check_positions(chk, prog, unit):
 
     L = Lin.sym("len")
 
+    def fatal_by_position(g, f, idx, upper):
+        """P4: no exit of the process is decided by the position: a call of the fatal-error routine reached only when idx is out of
+        range (an ASSERT where a refusal belongs) ends the program - or, compiled without assertions, lets the bad position
+        through - where the ideal sequence just refuses."""
+        def v(st, n, blk):
+            if n.get("k") == "call" and X.callee_name(n) in NORETURN:
+                inr = [idx] + ([L - 1 - idx] if upper else [])
+                if not g.compatible(st, inr):
+                    ob(g, st, "P4", f, "position-decides-fatal-exit", False, n,
+                       "%s ends the process (fatal assertion) exactly when the position is out of range (state: %s): the other "
+                       "implementations refuse such a position and carry on, and a build without assertions does not check it at all" % (
+                           f.name, show(st)[:160]), "")
+        g.visit(v)
+
     # ---- insert_at
     f = slotfn(prog, unit, "list", "insert_at")
     if f is not None:
@@ -880,6 +959,7 @@ def check_positions(chk, prog, unit):
                    "%s can return FALSE although the normalised position is >= 0 (state: %s): an insertion the ideal sequence "
                    "accepts is refused" % (f.name, show(st)[:200]), "the refusing return is unreachable with idx >= 0")
         g.visit(v_ins)
+        fatal_by_position(g, f, idx, False)
 
     # ---- get / remove_at
     for slot in ("get", "remove_at"):
@@ -933,6 +1013,7 @@ def check_positions(chk, prog, unit):
                    "%s can return NULL although 0 <= idx < len (state: %s): a position the ideal sequence has is refused" % (f.name, show(st)[:200]),
                    "the NULL result is unreachable with idx in range")
         g.visit(v_get)
+        fatal_by_position(g, f, idx, True)
 
     # ---- index: the reported position is the position of the matching node
     f = slotfn(prog, unit, "list", "index")
